@@ -76,7 +76,10 @@ def is_digit(c):
 
 def class_extras(texts):
     """Non-ASCII characters of a case: (word characters, digits, (char, lower) pairs) as Python's re / str see them."""
-    chars = sorted({c for t in texts for c in t if ord(c) >= 128})
+    chars = {c for t in texts for c in t if ord(c) >= 128}
+    # closed under case partners, so that the classification does not depend on case (hypothesis of C21_check_sound)
+    chars |= {x for c in chars for x in (c.lower(), c.upper(), c.swapcase()) if len(x) == 1 and ord(x) >= 128}
+    chars = sorted(chars)
     w = [c for c in chars if is_word(c)]
     d = [c for c in chars if is_digit(c)]
     lo = [(c, c.lower()) for c in chars if len(c.lower()) == 1 and c.lower() != c]
